@@ -644,11 +644,13 @@ pub fn deviations() -> Vec<(usize, String, Box<dyn Fn(&mut RuleSpec) + Send + Sy
     // the other address family, a single address (no prefix length), a range and its negation in one rule
     add(2, "ip=in2001:db8::/32", Box::new(|r| r.ips = Some(vec![(true, "2001:db8::/32".into())])));
     add(2, "ip=in10.0.0.1", Box::new(|r| r.ips = Some(vec![(true, "10.0.0.1".into())])));
+    add(2, "ip=in10.0.0.1|in10.0.0.1/32 (same constraint twice)", Box::new(|r| r.ips = Some(vec![(true, "10.0.0.1".into()), (true, "10.0.0.1/32".into())])));
     add(2, "ip=in192.168/16|notin10/8", Box::new(|r| r.ips = Some(vec![(true, "192.168.0.0/16".into()), (false, "10.0.0.0/8".into())])));
     // methods
     add(3, "methods=[]", Box::new(|r| r.methods = Some(vec![])));
     add(3, "methods=[GET]", Box::new(|r| r.methods = Some(vec!["GET".into()])));
     add(3, "methods=[GET,POST]", Box::new(|r| r.methods = Some(vec!["GET".into(), "POST".into()])));
+    add(3, "methods=[GET,GET]", Box::new(|r| r.methods = Some(vec!["GET".into(), "GET".into()])));
     add(
         3,
         "exclude[GET]",
